@@ -22,7 +22,7 @@ type FH struct {
 	Kind   string   `json:"kind"`            // ctx | http | handlerfunc | refl | typed
 	In     []string `json:"in,omitempty"`    // typed: parameters from the universe
 	MapReq []string `json:"map,omitempty"`   // concrete types mapped at request scope by this handler (ctx/refl/typed kinds)
-	Remap  string   `json:"remap,omitempty"` // context | writer | request: re-register that service for the rest of the request
+	Remap  string   `json:"remap,omitempty"` // context | writer | writer-chained | request: re-register that service for the rest of the request
 }
 
 type FCase struct {
@@ -85,6 +85,15 @@ func (s *fw) after(ctx flamego.Context, h FH) {
 	case "writer":
 		w := &rwWrap{s.w}
 		ctx.MapTo(w, (*http.ResponseWriter)(nil))
+		s.w = w
+		s.classes["remap-writer"] = true
+	case "writer-chained":
+		// the same re-registration reached through the TypeMapper a Map call returns
+		w := &rwWrap{s.w}
+		v := mkValue("N2", s.id)
+		s.id++
+		ctx.Map(v.Interface()).MapTo(w, (*http.ResponseWriter)(nil))
+		s.mReq.set(universe["N2"], v)
 		s.w = w
 		s.classes["remap-writer"] = true
 	case "request":
@@ -219,6 +228,9 @@ func checkFramework(c FCase) (out evid.Outcome) {
 			for _, tn := range h.MapReq {
 				avail[universe[tn]] = true
 			}
+			if h.Remap == "writer-chained" {
+				avail[universe["N2"]] = true // mapped on the way (see after)
+			}
 		}
 		if fmt.Sprint(s.ran) != fmt.Sprint(wantRan) {
 			return ffail(out, s.classes, "framework-ran", "handlers %v ran, want %v (unresolvable type: %q); escaped panic: %v; %s", s.ran, wantRan, missing, escaped, desc)
@@ -277,7 +289,7 @@ func genFCase(t *rapid.T) FCase {
 		}
 		if h.Kind == "ctx" || h.Kind == "refl" || h.Kind == "typed" {
 			h.MapReq = pick("mapreq", 2)
-			h.Remap = []string{"", "", "", "context", "writer", "request"}[rapid.IntRange(0, 5).Draw(t, "remap")]
+			h.Remap = []string{"", "", "", "context", "writer", "request", "writer-chained"}[rapid.IntRange(0, 6).Draw(t, "remap")]
 		}
 		c.Handlers = append(c.Handlers, h)
 	}
@@ -286,7 +298,7 @@ func genFCase(t *rapid.T) FCase {
 }
 
 func TestFramework(t *testing.T) {
-	evid.Rapid(t, "framework", 3000, 40000, func(t *rapid.T) {
+	evid.Rapid(t, "framework", 3000, 100000, func(t *rapid.T) {
 		c := genFCase(t)
 		evid.Run(t, "framework", c, func() evid.Outcome { return checkFramework(c) })
 	})
